@@ -101,6 +101,10 @@ def generate(seed, tier, k):
     if mode == "condensed" and r.random() < 0.3:
         doc["faults"].append({"kind": "solver_inexact", "rel": r.choice([1e-10, 1e-6, 1e-4]), "seed": r.randrange(1000)})
     doc["c10"] = {"mode": mode, "restart": mode == "condensed" and r.random() < 0.4, "probe_seed": r.randrange(1 << 30), "unrelated_dual": r.choice([None, None, False, True])}
+    if mode == "condensed" and gen.kpick(seed, "update-in-place", 3) == 0:
+        # Newton's documented update= callable, here the in-place variant (x += dx): the field container
+        # the body was created with carries every iterate
+        doc["update_kind"] = "inplace"
     if doc.get("axi_units"):
         L_, S_ = doc["axi_units"]["L"], doc["axi_units"]["S"]
         mesh["a"] = [v * L_ for v in mesh["a"]]
